@@ -11,7 +11,9 @@ Features == {"generic", "skipped_param", "lifetime", "docs", "rename", "skip_fie
 Excl(S) == Cardinality(S \cap {"capture_always", "capture_never", "capture_default"}) <= 1
 Plans == {<<sh, S>> : sh \in Shapes, S \in {T \in SUBSET Features : Cardinality(T) <= MaxFeatures /\ Excl(T)}}
 \* container attribute items (C20 derive half)
-Items == { [k |-> "bounds", ps |-> {"T"}], [k |-> "bounds", ps |-> {}], [k |-> "skip_type_params", ps |-> {"T"}],
+\* two type parameters T (declared first) and U, so that "every non-skipped parameter is bound" has an order to get wrong
+Items == { [k |-> "bounds", ps |-> {"T", "U"}], [k |-> "bounds", ps |-> {"T"}], [k |-> "bounds", ps |-> {"U"}], [k |-> "bounds", ps |-> {}],
+           [k |-> "skip_type_params", ps |-> {"T"}], [k |-> "skip_type_params", ps |-> {"U"}],
            [k |-> "capture_docs", valid |-> TRUE, val |-> "default"], [k |-> "capture_docs", valid |-> TRUE, val |-> "Always"],
            [k |-> "capture_docs", valid |-> TRUE, val |-> "never"], [k |-> "capture_docs", valid |-> FALSE, val |-> "sometimes"], [k |-> "crate"],
            [k |-> "replace_segment"], [k |-> "unknown"] }
@@ -21,5 +23,5 @@ Init == IF Mode = "plans" THEN x \in Plans ELSE x \in ItemSeqs
 Next == UNCHANGED x
 Spec == Init /\ [][Next]_x
 EmitPlan == Mode = "plans" => PrintT(<<"PLAN", ToJson([shape |-> x[1], feats |-> SetToSeq(x[2])])>>)
-EmitAttr == Mode = "attrs" => PrintT(<<"ATTR", ToJson([items |-> [i \in 1..Len(x) |-> [x[i] EXCEPT !.ps = IF "ps" \in DOMAIN x[i] THEN SetToSeq(x[i].ps) ELSE <<>>]], accept |-> AttrAccept(x, {"T"})])>>)
+EmitAttr == Mode = "attrs" => PrintT(<<"ATTR", ToJson([items |-> [i \in 1..Len(x) |-> [x[i] EXCEPT !.ps = IF "ps" \in DOMAIN x[i] THEN SetToSeq(x[i].ps) ELSE <<>>]], accept |-> AttrAccept(x, {"T", "U"})])>>)
 =============================================================================
